@@ -48,6 +48,7 @@ type Solver struct {
 	Log     io.Writer
 	buf     strings.Builder
 	dead    bool
+	killed  bool
 	// IntMode: every formula is translated to the integer encoding (term.ToInt) before it is sent.
 	IntMode bool
 }
@@ -92,6 +93,7 @@ func (s *Solver) start() error {
 	s.defined = map[int]bool{}
 	s.declUF = map[string]bool{}
 	s.dead = false
+	s.killed = false
 	s.preamble()
 	return nil
 }
@@ -146,6 +148,15 @@ func (s *Solver) CheckFresh(f *term.Factory, pc []*term.T, extra *term.T, want [
 		s.Assert(f, c)
 	}
 	return s.Check(f, extra, want)
+}
+
+// PrepareFresh is CheckFresh split like Prepare.
+func (s *Solver) PrepareFresh(f *term.Factory, pc []*term.T, extra *term.T, want []*term.T) func() (Result, []*big.Int) {
+	s.Reset()
+	for _, c := range pc {
+		s.Assert(f, c)
+	}
+	return s.Prepare(f, extra, want)
 }
 
 func (s *Solver) Close() {
@@ -256,6 +267,22 @@ func (s *Solver) readLine() (string, error) {
 // Check checks satisfiability of the session assertions plus extra (may be nil).
 // If want is non-nil and the result is sat, values of those terms are returned.
 func (s *Solver) Check(f *term.Factory, extra *term.T, want []*term.T) (Result, []*big.Int) {
+	return s.Prepare(f, extra, want)()
+}
+
+// Interrupt kills the solver process; a pending wait returns Unknown. Safe to
+// call from another goroutine. The session must be Reset (restarted) afterwards.
+func (s *Solver) Interrupt() {
+	s.killed = true
+	if c := s.cmd; c != nil && c.Process != nil {
+		c.Process.Kill()
+	}
+}
+
+// Prepare serialises the query (all factory access happens here) and returns
+// the function that sends it and waits for the answer; the returned function
+// touches only the solver session, so it may run on another goroutine.
+func (s *Solver) Prepare(f *term.Factory, extra *term.T, want []*term.T) func() (Result, []*big.Int) {
 	var r string
 	if extra != nil {
 		r = s.define(f, extra)
@@ -269,6 +296,10 @@ func (s *Solver) Check(f *term.Factory, extra *term.T, want []*term.T) (Result, 
 		s.send("(assert " + r + ")")
 	}
 	s.send("(check-sat)")
+	return func() (Result, []*big.Int) { return s.wait(want, wantRefs) }
+}
+
+func (s *Solver) wait(want []*term.T, wantRefs []string) (Result, []*big.Int) {
 	s.flush()
 	t0 := time.Now()
 	s.Stats.Queries++
@@ -279,7 +310,9 @@ func (s *Solver) Check(f *term.Factory, extra *term.T, want []*term.T) (Result, 
 		line, err = s.readLine()
 		if err != nil {
 			s.dead = true
-			s.Stats.Errors++
+			if !s.killed {
+				s.Stats.Errors++
+			}
 			s.Stats.Unknown++
 			s.Stats.SolveTime += time.Since(t0)
 			return Unknown, nil
